@@ -69,6 +69,10 @@ class _ThreadShim:
                 elif self.actor is not None:
                     s = S.Sched.current
                     if s is not None and s.me() is not None:
+                        if timeout is not None:
+                            # a bounded wait may expire before the writer has run: it does not wait at all here
+                            s.yield_point("join-hist-timeout")
+                            return
                         s.block_until(lambda: self.actor.state == "done", "join-hist")
                     elif self.actor.thread is not None:
                         self.actor.thread.join(timeout or 5.0)
@@ -137,7 +141,7 @@ def chooser(mode: str, rng):
     return choose
 
 
-SCENARIOS = ["plain", "batch", "retry", "cc_reroute", "kill", "recover"]
+SCENARIOS = ["plain", "batch", "flush", "retry", "cc_reroute", "kill", "recover"]
 
 
 def run_scenario(kind, scratch, name, mode, seed):
@@ -198,6 +202,17 @@ def run_scenario(kind, scratch, name, mode, seed):
                     pass
             s.spawn("recoverer", recoverer)
         s.spawn("r1", w.polling_runner("r1", 1, outs[1], rounds=rounds))
+        if name == "flush":
+            def flusher():
+                # "once pending writes are flushed": the flush is called while writers are still pending (they run last / late);
+                # what get_history says right after it returns must already be complete
+                s.block_until(lambda: all(a.state == "done" for a in s.actors if a.name in ("r0", "r1")), "runners-done")
+                app.state_backend.wait_for_all_async_operations()
+                for i in ids:
+                    flushed[i] = ([h.status_record.status.name for h in app.state_backend.get_history(i)],
+                                  ["REGISTERED"] + [st for (st, _, _) in w.successes(i)])
+            s.spawn("flusher", flusher)
+    flushed: dict = {}
     s.spawn("client", setup_and_spawn)
     try:
         status = s.run(chooser(mode, rng), max_steps=20000)
@@ -210,10 +225,15 @@ def run_scenario(kind, scratch, name, mode, seed):
     if status != "done":
         verdict = f"schedule ended {status}"
     for n, i in enumerate(ids):
+        if i in flushed and sorted(flushed[i][0]) != sorted(flushed[i][1]) and not verdict:
+            verdict = (f"history of invocation #{n} read right after wait_for_all_async_operations() returned is {flushed[i][0]}, "
+                       f"its successful changes until then were {flushed[i][1]}")
+    for n, i in enumerate(ids):
         if verdict:
             break
         expected = [("REGISTERED", None)] + [(st, req) for (st, req, own) in w.successes(i)]
         hist = app.state_backend.get_history(i)
+        api_order = [h.status_record.status.name for h in hist]
         hist = sorted(hist, key=lambda h: h.status_record.timestamp)
         got = [(h.status_record.status.name, h.runner_context_id) for h in hist]
         stamps = [h.status_record.timestamp for h in hist]
@@ -237,6 +257,10 @@ def run_scenario(kind, scratch, name, mode, seed):
             verdict = f"history of invocation #{n} is {got_s} but its successful changes were {exp_s} (missing {miss}, extra {extra})"
         elif exp_s != got_s and len(set(stamps)) == len(stamps):
             verdict = f"history of invocation #{n} ordered by change time is {got_s}, the changes happened as {exp_s}"
+        elif name in ("plain", "batch", "flush") and api_order != exp_s and len(set(stamps)) == len(stamps):
+            # every change of these invocations is made by ONE runner, one after the other: the order get_history itself gives
+            # (its own time stamps) must be the order of the changes however late the writers ran
+            verdict = f"get_history of invocation #{n} lists {api_order}, the changes happened as {exp_s}"
         elif got_s and got_s[-1] != cur and len(set(stamps)) == len(stamps):
             verdict = f"history of invocation #{n} ends at {got_s[-1]} but the current status is {cur}"
         else:
